@@ -707,6 +707,24 @@ def drv_examples(tier, rng):
     return groups
 
 
+# ---------------------------------------------------------------- larger credibility matrices for the distillation
+def drv_distil(tier, rng):
+    """random n x n credibility matrices (n = 4..6) over sixteenths with dyadic distillation functions: nested inner
+    distillations (several ex-aequo candidates at a positive cut level) need this many alternatives and levels"""
+    groups = []
+    funs = [([0, 1], [1, 8], 0, UNIT // 8), ([-1, 8], [1, 4], -(UNIT // 8), UNIT // 4), ([-1, 2], [1, 2], -(UNIT // 2), UNIT // 2), ([0, 1], [0, 1], 0, 0)]
+    N = 1500 if tier == 'quick' else 30000
+    for _ in range(N):
+        n = rng.choice([4, 5, 6, 6, 6])
+        ids = ALT[:n]
+        m = [[16 if i == j else rng.randint(0, 16) for j in range(n)] for i in range(n)]
+        sa, sb, ra, rb = rng.choice(funs)
+        groups.append([{'fam': 'ElectreS2', 'unit': UNIT, 'fragile': False, 'sa': sa, 'sb': sb, 'mden': 16,
+                        'm4': {ids[i]: {ids[j]: m[i][j] for j in range(n)} for i in range(n)},
+                        'dist': {'alts': ids, 'matrix': [[m[i][j] * (UNIT // 16) for j in range(n)] for i in range(n)], 'a': ra, 'b': rb}}])
+    return groups
+
+
 def nt_ties(o):
     """non-trivial for ranking shape: at least two entries and at least one tie or two levels"""
     r = o.get('resp', {}).get('result', [])
@@ -749,7 +767,7 @@ FAMILIES = {
         'mc': 'MC_Electre',
         'mc_cfg': {'quick': 'MC_Electre_quick.cfg', 'thorough': 'MC_Electre_thorough.cfg'},
         'mc_workers': 14,
-        'mode': 'distil', 'trace': 'Trace_Electre2', 'drivers': [],
+        'mode': 'distil', 'trace': 'Trace_Electre2', 'drivers': [drv_distil],
     },
     'electre': {
         'mc': 'MC_ElectreE',
